@@ -8,6 +8,7 @@ The model side (coq/History/State.v): the first-writer-wins tolerance trace of t
 WHERE a dependence on the tolerance appears (model output under the tolerance the history installed vs under the
 probe's own), the robustness predicate of the eps_insensitive theorems, and the C07 posting model started from
 the diagram store the history left behind."""
+import copy
 import json
 import math
 import os
@@ -19,6 +20,7 @@ from harness import core, fr
 from harness.core import gq, gbool, gstr, glist, gnat
 from harness.props import alloc_common as ac
 from harness.props import c01, c06, c07, c15
+from harness.props import c20_related as rel
 from harness.props import netlist_common as nc
 
 HEADER = """From Coq Require Import ZArith List Bool String.
@@ -507,9 +509,10 @@ def gen_history_op(rng, probe, base):
     return None
 
 
-def gen_probe(rng, quick=True):
-    kind = rng.choices(["stog", "alloc", "die", "netlist", "sat", "legal", "strop", "defaults", "die-decimal",
-                        "stog-decimal"], [18, 16, 16, 12, 14, 7, 6, 6, 6, 3])[0]
+def gen_probe(rng, quick=True, kind=None):
+    if kind is None:
+        kind = rng.choices(["stog", "alloc", "die", "netlist", "sat", "legal", "strop", "defaults", "die-decimal",
+                            "stog-decimal"], [18, 16, 16, 12, 14, 7, 6, 6, 6, 3])[0]
     base = pow2(rng.choice([-6, -3, 0, 0, 0, 2, 5, 9]))
     variant = "nonrobust" if rng.random() < 0.3 else "robust"
     if kind == "stog":
@@ -540,7 +543,8 @@ def gen_probe(rng, quick=True):
 def strip(d):
     """what is stored in a case: the operation and the meta data needed by the model side"""
     return {"op": d["op"], "kind": d["kind"], "stream": d.get("stream"), "variant": d.get("variant"),
-            "dims": d.get("dims"), "cand": d.get("cand"), "note": d.get("note", ""), "fixed": d.get("fixed")}
+            "dims": d.get("dims"), "cand": d.get("cand"), "note": d.get("note", ""), "fixed": d.get("fixed"),
+            "needs_installer": bool(d.get("needs_installer"))}
 
 
 def gen_group(rng, nprobes):
@@ -606,6 +610,93 @@ def admissible(p, h):
     if p["dims"] is None or h["dims"] is None:
         return True
     return F(h["dims"][0]) * 1000 >= F(p["dims"][0]) and F(h["dims"][1]) <= F(p["dims"][1]) * 1000
+
+
+# --------------------------------------------------------------------------
+# histories of RELATED designs: near-duplicates of the probe (harness/props/c20_related.py), the probe itself,
+# and a few unrelated operations in between
+# --------------------------------------------------------------------------
+REL_KINDS = ["die-grid", "die", "alloc", "stog", "netlist", "sat", "die-grid", "die", "legal", "alloc", "strop",
+             "netlist", "stog", "sat", "die-grid", "defaults", "die", "netlist-simple"]
+
+
+def installs(h):
+    """an operation whose candidate tolerance is known and defined: it installs the tolerances when none are"""
+    return (not h.get("needs_installer")) and any(c[1] is not None for c in (h.get("cand") or []))
+
+
+def fix_installer(rng, hist, probe):
+    """operations whose candidate tolerance is not predicted (documents with region-wise areas, texts) must come
+    after a first writer whose candidate is: the tolerance trace of the history stays fully predicted by the model"""
+    if not any(h.get("needs_installer") for h in hist):
+        return hist
+    first = next((i for i, h in enumerate(hist) if installs(h)), None)
+    if first is None:
+        inst = None
+        for P in (F(1), F(4), F(1, 4), F(16), F(1, 16), F(64), F(256)):
+            for _ in range(4):
+                h = strip(gen_netlist_hist(rng, P, decimal=False))
+                if installs(h) and admissible(probe, h):
+                    inst = h
+                    break
+            if inst is not None:
+                break
+        if inst is None:
+            return [h for h in hist if not h.get("needs_installer")]
+        return [inst] + hist
+    early = [h for h in hist[:first] if h.get("needs_installer")]
+    return [h for h in hist[:first] if not h.get("needs_installer")] + [hist[first]] + early + hist[first + 1:]
+
+
+def installer_rule_ok(hist):
+    seen = False
+    for h in hist:
+        if installs(h):
+            seen = True
+        elif h.get("needs_installer") and not seen:
+            return False
+    return True
+
+
+def gen_related_group(rng, kind):
+    """one history made of near-duplicates of the probed designs; the probe and some of its near-duplicates are each
+    executed (in their own fork) at its end, so every probed design has itself and its neighbours in the history"""
+    if kind == "die-grid":
+        base = pow2(rng.choice([-6, -3, 0, 0, 0, 2, 5, 9]))
+        fam = [strip(m) for m in rel.die_grid_family(rng, base)]
+        lead = fam[0]
+        probes = [fam[0]] + rng.sample(fam[1:], min(3, len(fam) - 1))
+        chosen = list(fam)
+        chosen += [copy_of(m) for m in probes if rng.random() < 0.5]              # executed twice
+    else:
+        pk = {"netlist-simple": "netlist"}.get(kind, kind)
+        p, base = gen_probe(rng, kind=pk)
+        if kind == "netlist-simple":
+            base = pow2(rng.choice([-6, -3, 0, 0, 2, 5]))
+            p = gen_netlist_hist(rng, base)
+            p["variant"] = None
+        lead = strip(p)
+        fam = [strip(m) for m in rel.relatives(rng, lead)]
+        selfs = [m for m in fam if m["note"] == "rel:self"]
+        others = [m for m in fam if m["note"] != "rel:self"]
+        chosen = rng.sample(others, min(len(others), rng.randrange(3, 10)))
+        chosen += [copy_of(selfs[0]) for _ in range(rng.choice([0, 1, 1, 2, 3]))] if selfs else []
+        probes = [lead] + rng.sample(others, min(len(others), 2))
+    rng.shuffle(chosen)
+    for _ in range(rng.choice([0, 0, 1, 2, 3])):
+        h = gen_history_op(rng, lead, base)
+        if h is not None:
+            chosen.insert(rng.randrange(len(chosen) + 1), strip(h))
+    cases = []
+    for p in probes:
+        hs = fix_installer(rng, [h for h in chosen if admissible(p, h)], p)
+        if hs and installer_rule_ok(hs):
+            cases.append({"history": hs, "probe": dict(p, needs_installer=False)})
+    return cases
+
+
+def copy_of(d):
+    return copy.deepcopy(d)
 
 
 # --------------------------------------------------------------------------
@@ -934,10 +1025,10 @@ def failure_key(case, why):
 def shrink(case):
     h = case["history"]
     if len(h) > 1:
-        yield dict(case, history=h[:len(h) // 2])
-        yield dict(case, history=h[len(h) // 2:])
-        for i in range(len(h)):
-            yield dict(case, history=h[:i] + h[i + 1:])
+        cands = [h[:len(h) // 2], h[len(h) // 2:]] + [h[:i] + h[i + 1:] for i in range(len(h))]
+        for c in cands:
+            if installer_rule_ok(c):         # the tolerance trace of the shortened history must stay predicted
+                yield dict(case, history=c)
 
 
 def nontrivial(case):
@@ -982,6 +1073,7 @@ def fresh_crosscheck(ctx, out, cases, n):
 def run(ctx, out, replay=None):
     quick = ctx.quick()
     ngroups = 45 if quick else 800
+    nrelated = 36 if quick else 700
     out.rule = ("(history, probe) pairs: probe = netlist load + verdict / orthogon recognition of a hard module / die "
                 "decomposition (with fixed rectangles of a netlist) / allocation + refine, griddify, uniform depth / "
                 "SAT posting sequence / legaliser Model construction / Strop / objects built from default arguments; "
@@ -995,6 +1087,11 @@ def run(ctx, out, replay=None):
     ncorpus = len(cases)
     for _ in range(ngroups):
         cases += gen_group(ctx.rng, ctx.rng.choice([3, 4, 5]))
+    nrel = 0
+    for i in range(nrelated):
+        g = gen_related_group(ctx.rng, REL_KINDS[i % len(REL_KINDS)])
+        nrel += len(g)
+        cases += g
     # JSON round trip so that replayed and generated cases have the same representation
     cases = [fr.unjson(json.loads(json.dumps(fr.tojson(c)))) for c in cases]
     _CACHE.update(run_batch(cases, par=10))
